@@ -15,7 +15,7 @@ import sys
 import tempfile
 import time
 
-VERIF = "/verif"
+VERIF = os.environ.get("VERIF_HOME") or os.path.dirname(os.path.dirname(os.path.abspath(__file__)))
 REPO = os.environ.get("VERIF_REPO", "/repo")
 LEAN = VERIF + "/lean"
 BUILD = VERIF + "/.build"
